@@ -209,6 +209,8 @@ def generate(rng, tier, index):
 
 
 _ESC = ['\\"', '\\\\', "\\'", "\\x41", "\\n", "\\t", "\\u0041"]
+# raw text that looks like profile syntax - it sits INSIDE a string literal, where it means nothing
+_RAW = ["\n", " {\n\n  ", ";\n", "}\n", " # not a comment", "{\n\n\n", "\t", "set x "]
 
 
 def _escapeify(rng, it):
@@ -226,7 +228,7 @@ def _escapeify(rng, it):
         if r < 0.9:
             return rng.choice(_ESC) + v + rng.choice(_ESC)
         k = rng.randint(0, len(v))
-        return v[:k] + rng.choice(_ESC) + v[k:]
+        return v[:k] + rng.choice(_ESC + _RAW + _RAW) + v[k:]
     if it[0] == "opt":
         return ["opt", it[1], e(it[2])]
     if it[0] == "set":
